@@ -264,6 +264,10 @@ def run(ctx):
         _ob, _sf = vlib.skeleton_tie(prop, "core", only=["Blockchain.verifyNeighborBlockchain", "Blockchain.Blocks"])
         extra.append(_ob)
         failures += _sf
+        # where a peer's targets message ends up: the neighbourhood's refresh round
+        _ob, _sf = vlib.skeleton_tie(prop, "neigh", only=["Neighborhood.AddTargets", "Neighborhood.Synchronize", "Neighborhood.selectOutbounds"])
+        extra.append(_ob)
+        failures += _sf
         # the arithmetic a peer's requested height goes through, regenerated from the source: no slice panic for any height
         gen, obs, afails, aths = vlib.arith_tie(prop)
         if gen:
